@@ -161,7 +161,9 @@ func VerifC01_v1simple_handler() {
 	cancelled := false
 	ctx, cancel := context.WithCancel(context.Background())
 	cancelIn := vChoose("cancel-in-handle", K+1) // K: never inside Handle
+	var handleCtx []context.Context
 	handle := func(c context.Context, item int) {
+		handleCtx = append(handleCtx, c)
 		log = append(log, ev{kind: 0, item: item})
 		if len(log)/3 == cancelIn && !cancelled {
 			cancelled = true
@@ -177,7 +179,8 @@ func VerifC01_v1simple_handler() {
 		items, prios = append(items, it), append(prios, p)
 		out <- Prioritized[int]{Item: it, Priority: p}
 	}
-	s := &Simple[int]{opts: SimpleOpts[int]{Ctx: ctx, Handle: handle}, output: out, feedback: fb, wg: &sync.WaitGroup{}}
+	// as in Simple.main: the handlers' context is DERIVED from the user's context (here: never cancelled)
+	s := &Simple[int]{opts: SimpleOpts[int]{Ctx: context.Background(), Handle: handle}, output: out, feedback: fb, wg: &sync.WaitGroup{}}
 	vKnownFields(s, "opts priority breaker graceful output feedback wg err")
 	s.wg.Add(1)
 	vOnRecv(out, func(v any, ok bool) {
@@ -201,6 +204,16 @@ func VerifC01_v1simple_handler() {
 	vAssert(vWaitCount() == 0, "C19: a returning handler signs off from the WaitGroup")
 	vReach("handler returned")
 	vAssert(cancelled, "C19: the handler returns only when its context is cancelled")
+	// Stop() cancels the handlers' context: a Handle that honours ITS context must see that cancellation
+	for _, c := range handleCtx {
+		seen := false
+		select {
+		case <-c.Done():
+			seen = true
+		default:
+		}
+		vAssert(seen, "C16: the context handed to Handle is cancelled when the handlers' context is (Stop reaches a running Handle)")
+	}
 	n := len(log) / 3
 	for k := 0; k < n; k++ {
 		a, b := log[3*k], log[3*k+1]
